@@ -30,6 +30,10 @@ struct Msg {
     content: u8, // 0 = A, 1 = B
     wrong_host: bool,
     compressed: bool,
+    /// wrong-host messages only: the local node address used (default 127.0.0.9:6000)
+    node: Option<&'static str>,
+    /// wrong-host messages only: a second local node on the right host precedes the foreign one
+    mixed: bool,
 }
 
 impl Msg {
@@ -40,7 +44,7 @@ impl Msg {
             self.epoch,
             if self.force { ",FORCE" } else { "" },
             if self.content == 0 { ",A" } else { ",B" },
-            if self.wrong_host { ",wrong-host" } else { "" },
+            if self.wrong_host { format!(",wrong-host[{}{}]", self.node.unwrap_or("127.0.0.9:6000"), if self.mixed { "+own" } else { "" }) } else { String::new() },
             if self.compressed { ",compressed" } else { "" }
         )
     }
@@ -51,7 +55,7 @@ impl Msg {
             (false, true) => "COMPRESS",
             (true, true) => "FORCE,COMPRESS",
         };
-        let node = if self.wrong_host { "127.0.0.9:6000" } else { N1 };
+        let node = if self.wrong_host { self.node.unwrap_or("127.0.0.9:6000") } else { N1 };
         match self.kind {
             Kind::Cluster => {
                 let (mine, theirs) = if self.content == 0 { ((0, 8000), (8001, 16383)) } else { ((8001, 16383), (0, 8000)) };
@@ -66,12 +70,20 @@ impl Msg {
                     c.extend(m.to_compressed_args().expect("compress").into_iter().map(|s| s.into_bytes()));
                     c
                 } else {
-                    cmd(&["UMCTL", "SETCLUSTER", "v2", &self.epoch.to_string(), flags, "c1", node, "1", &format!("{}-{}", mine.0, mine.1), "PEER", X, "1", &format!("{}-{}", theirs.0, theirs.1)])
+                    if self.mixed {
+                        cmd(&["UMCTL", "SETCLUSTER", "v2", &self.epoch.to_string(), flags, "c1", N1, "1", &format!("{}-{}", mine.0, mine.0 + 10), node, "1", &format!("{}-{}", mine.0 + 11, mine.1), "PEER", X, "1", &format!("{}-{}", theirs.0, theirs.1)])
+                    } else {
+                        cmd(&["UMCTL", "SETCLUSTER", "v2", &self.epoch.to_string(), flags, "c1", node, "1", &format!("{}-{}", mine.0, mine.1), "PEER", X, "1", &format!("{}-{}", theirs.0, theirs.1)])
+                    }
                 }
             }
             Kind::Repl => {
                 let role = if self.content == 0 { "master" } else { "replica" };
-                cmd(&["UMCTL", "SETREPL", &self.epoch.to_string(), if self.force { "FORCE" } else { "NOFLAG" }, role, "c1", node, "1", XN, X])
+                if self.mixed {
+                    cmd(&["UMCTL", "SETREPL", &self.epoch.to_string(), if self.force { "FORCE" } else { "NOFLAG" }, role, "c1", N1, "1", XN, X, role, "c1", node, "1", XN, X])
+                } else {
+                    cmd(&["UMCTL", "SETREPL", &self.epoch.to_string(), if self.force { "FORCE" } else { "NOFLAG" }, role, "c1", node, "1", XN, X])
+                }
             }
         }
     }
@@ -83,14 +95,35 @@ fn alphabet() -> Vec<Msg> {
         for epoch in 1..=3u64 {
             for force in [false, true] {
                 for content in [0u8, 1] {
-                    v.push(Msg { kind: kind.clone(), epoch, force, content, wrong_host: false, compressed: false });
+                    v.push(Msg { kind: kind.clone(), epoch, force, content, wrong_host: false, compressed: false, node: None, mixed: false });
                 }
             }
         }
-        v.push(Msg { kind: kind.clone(), epoch: 3, force: false, content: 1, wrong_host: true, compressed: false });
-        v.push(Msg { kind: kind.clone(), epoch: 3, force: true, content: 0, wrong_host: true, compressed: false });
+        v.push(Msg { kind: kind.clone(), epoch: 3, force: false, content: 1, wrong_host: true, compressed: false, node: None, mixed: false });
+        v.push(Msg { kind: kind.clone(), epoch: 3, force: true, content: 0, wrong_host: true, compressed: false, node: None, mixed: false });
     }
-    v.push(Msg { kind: Kind::Cluster, epoch: 2, force: false, content: 1, wrong_host: false, compressed: true });
+    v.push(Msg { kind: Kind::Cluster, epoch: 2, force: false, content: 1, wrong_host: false, compressed: true, node: None, mixed: false });
+    v
+}
+
+/// Foreign local-node addresses that resemble the proxy's own host (127.0.0.1): the announce host
+/// as a proper prefix / suffix / substring of the foreign host, other spellings, no host at all.
+const FOREIGN_NODES: [&str; 12] = [
+    "127.0.0.10:6000", "127.0.0.11:6000", "127.0.0.1.example.com:6000", "127.0.0.1x:6000", "127.0.0:6000", "27.0.0.1:6000",
+    "x127.0.0.1:6000", "1127.0.0.1:6000", "127.0.0.1 :6000", "localhost:6000", "127.000.000.001:6000", "[::1]:6000",
+];
+
+fn host_family() -> Vec<Msg> {
+    let mut v = vec![];
+    for kind in [Kind::Cluster, Kind::Repl] {
+        for node in FOREIGN_NODES {
+            for mixed in [false, true] {
+                for force in [false, true] {
+                    v.push(Msg { kind: kind.clone(), epoch: 3, force, content: 1, wrong_host: true, compressed: false, node: Some(node), mixed });
+                }
+            }
+        }
+    }
     v
 }
 
@@ -216,6 +249,25 @@ pub fn run(cli: &Cli) -> (Value, Vec<Violation>) {
             seqs.push(s);
         }
     }
+    // host family: every foreign-host message alone, after every base message, and before every
+    // base message (a refused message must leave nothing behind)
+    let mut alpha = alpha;
+    let base_n = n;
+    let fam = host_family();
+    let fam_n = fam.len();
+    alpha.extend(fam);
+    let mut host_seqs = 0usize;
+    for f in base_n..base_n + fam_n {
+        seqs.push(vec![f]);
+        host_seqs += 1;
+        for b in 0..base_n {
+            if !alpha[b].wrong_host && (cli.thorough() || alpha[b].epoch == 2) {
+                seqs.push(vec![b, f]);
+                seqs.push(vec![f, b]);
+                host_seqs += 2;
+            }
+        }
+    }
     let keys = crate::util::slot_keys();
     let (k_lo, k_hi) = (keys[100].clone(), keys[9000].clone());
     let workers = 16;
@@ -249,6 +301,8 @@ pub fn run(cli: &Cli) -> (Value, Vec<Violation>) {
         "distinct_nontrivial": nseq,
         "rule": format!("all sequences of length 1..{} over {} messages (SETCLUSTER / SETREPL x epoch 1..3 x force x content A/B, two wrong-host messages per kind, one compressed SETCLUSTER), each on a fresh real proxy; after every message: its reply, UMCTL GETEPOCH, two routing probes, UMCTL INFOREPL are compared with a two-register reference model; all sequences are distinct", maxlen, n),
         "messages_delivered": nmsg,
+        "foreign_host_family_sequences": host_seqs,
+        "foreign_host_family": "12 foreign local-node addresses resembling the proxy's own host (announce host as prefix / suffix / substring, other spellings) x {alone, behind an own-host node} x force x kind; each alone, after and before every base message",
         "expected_reply_classes": outcomes,
         "distinct_final_model_states": finals.len(),
         "samples": [seqs[seqs.len() / 2].iter().map(|i| alpha[*i].label()).collect::<Vec<_>>()],
